@@ -125,6 +125,7 @@ let parse_cmd (toks : string list) : cmd =
   | ["tags"; a] -> CTags (o a)
   | ["settags"; a; d; c] -> CSetTags (o a, n_of_int (i d), n_of_int (i c))
   | ["free"; a] -> CFree (o a)
+  | ["opts"; a] -> COpts (o a)
   | ["errstring"; n] -> CErrString (n_of_int (i n))
   | _ -> failwith ("bad command: " ^ String.concat " " toks)
 
@@ -175,6 +176,7 @@ let show_wout (o : out) : string =
       Printf.sprintf "%s n=%d checks=%s opens=%s%s" (rc e) (List.length files) (show_checks checks) (enc_list opens)
         (String.concat "" (List.map (fun kf -> " || " ^ show_out (ODump kf)) files))
   | OLoc (f, l) -> Printf.sprintf "loc file=%s line=%d" (enc f) (int_of_n l)
+  | OOpts (j, p, pd, cd, rp) -> Printf.sprintf "opts join=%d python=%d parse_dirs=%s conf_dirs=%s root=%s" (if j then 1 else 0) (if p then 1 else 0) (enc_list pd) (enc_list cd) (enc_opt rp)
   | _ -> show_out o
 
 let parse_wcmd (toks : string list) : wcmd =
